@@ -223,3 +223,54 @@ fn c08_replay_ipp_scalars_grid() {
         }
     }
 }
+
+/// C11 (concrete, exhaustive on the unit group): every strict prefix of the encoding of a
+/// k-round proof, k in 0..=3, is rejected with FormatError.  The Kani formulation of this
+/// statement ran out of memory (NOTES.md), so this is the only check of it in Engine K.
+#[test]
+fn c11_every_strict_prefix_rejected() {
+    for k in 0..=3usize {
+        let bytes = craft(k, k);
+        assert!(R1CSProof::<UnitA>::from_bytes(&bytes).is_ok());
+        for cut in 0..bytes.len() {
+            assert!(matches!(R1CSProof::<UnitA>::from_bytes(&bytes[..cut]), Err(R1CSError::FormatError)), "k={} cut={}", k, cut);
+        }
+    }
+}
+
+/// Observation found by the Kani harness `c12_aggregated_iter_party_major` (C12): with n = 0 and
+/// m >= 2 the aggregated iterator is NOT empty -- it yields generator 0 of parties 1..m-1
+/// (`AggregatedGensIter::next` advances the party before checking `gen_idx < n`).  This test
+/// documents the current behaviour; it does not assert that it is intended.
+#[test]
+fn c12_observation_zero_width_view_is_not_empty() {
+    let bp = BulletproofGens::<UnitA>::new(4, 3);
+    assert_eq!(bp.G(0, 1).count(), 0);
+    let mut it = bp.G(0, 3);
+    let mut got: Vec<UnitA> = Vec::new();
+    while let Some(g) = it.next() {
+        got.push(*g);
+    }
+    // current behaviour: two items (party 1 and party 2, generator 0) instead of none
+    assert_eq!(got, vec![bp.share(1).verif_G(1)[0], bp.share(2).verif_G(1)[0]]);
+    // all n >= 1 views are exact
+    for n in 1..=4 {
+        for m in 0..=3 {
+            let flat: Vec<UnitA> = (0..m).flat_map(|j| bp.share(j).verif_G(n)).collect();
+            assert_eq!(bp.G(n, m).cloned().collect::<Vec<_>>(), flat);
+        }
+    }
+}
+
+/// ... and once it has yielded an item, its `size_hint` computes `0 * (m - party) - 1`: with
+/// overflow checks on (the crate's dev and test profiles set `debug-assertions = true`) any
+/// adaptor that asks for the hint (`collect`, `cloned().collect()`) panics.
+#[cfg(debug_assertions)]
+#[test]
+#[should_panic(expected = "subtract with overflow")]
+fn c12_observation_zero_width_view_size_hint_overflows() {
+    let bp = BulletproofGens::<UnitA>::new(4, 3);
+    let mut it = bp.G(0, 3);
+    let _ = it.next();
+    let _ = it.size_hint();
+}
